@@ -52,8 +52,8 @@ impl<const N: usize> FakeSq<N> {
     /// Tell the kernel model where the ring words are.
     pub(crate) fn register_with_kernel(&self) {
         unsafe {
-            env::K_SQ_HEAD = &self.head;
-            env::K_SQ_TAIL = &self.tail;
+            env::E.k_sq_head = &self.head;
+            env::E.k_sq_tail = &self.tail;
         }
     }
 
@@ -127,11 +127,11 @@ fn c04_enter_count() {
     let n: i32 = kani::any();
     kani::assume(n >= 0);
     unsafe {
-        env::ENTER_RET[0] = n;
+        env::E.enter_ret[0] = n;
     }
     let res = shared.enter(min_complete, flags, timeout);
-    assert!(unsafe { env::ENTER_N } == 1, "exactly one io_uring_enter");
-    let call = unsafe { env::ENTERS[0] };
+    assert!(unsafe { env::E.enter_n } == 1, "exactly one io_uring_enter");
+    let call = unsafe { env::E.enters[0] };
     assert!(call.fd == RING_FD);
     assert!(call.min_complete == min_complete);
     assert!(call.size == size_of::<libc::io_uring_getevents_arg>());
@@ -234,8 +234,8 @@ fn c03_enter_wakes() {
     let consume: u32 = kani::any();
     kani::assume(consume <= t.wrapping_sub(h));
     unsafe {
-        env::ENTER_RET[0] = consume as i32;
-        env::ENTER_CONSUME[0] = consume;
+        env::E.enter_ret[0] = consume as i32;
+        env::E.enter_consume[0] = consume;
     }
     kani::assume(consume <= i32::MAX as u32);
     let res = shared.enter(0, 0, Some(Duration::ZERO));
